@@ -205,8 +205,12 @@ def canaries(case):
         c['perm'] = c['perm'][:-1]
         c['out'] = c['out'][:-1]
         return [c]
-    if k in ('calc', 'aggregate', 'join') and case['out']:
+    if k in ('calc', 'aggregate') and case['out']:
         c['out'] = c['out'][:-1]
+        return [c]
+    if k == 'join' and case['out']:
+        # dropping a row could turn one allowed table (unmatched rows kept) into the other: corrupt a row instead
+        c['out'][-1] = {'t': 'object', 'v': [{'key': A.cps('zz'), 'val': {'t': 'str', 'v': A.cps('corrupted')}}]}
         return [c]
     if k == 'csv' and case['parsed'].get('t') == 'array' and case['parsed']['v']:
         c['parsed']['v'][0] = {'t': 'object', 'v': []}
